@@ -72,6 +72,13 @@ Fixed == {
   Single("l", L(<<Mk2("$match", Single("a", I("1")), "c", I("3"))>>)),
   Single("l", L(<<Mk2("$match", Single("b", S("x")), "nn", Single("deep", I("1")))>>)),
   Single("l", L(<<Mk2("$match", EmptyMap, "nl", L(<<I("1")>>))>>)),
+  (* every entry gets an EMPTY map (one object for all of them, if the copy is skipped): a later layer fills one *)
+  Single("l", L(<<Mk2("$match", EmptyMap, "nn", EmptyMap)>>)),
+  Single("l", L(<<Mk2("$match", Single("b", S("x")), "$value", Mk2("nn", EmptyMap, "nl", EmptyList))>>)),
+  (* a pattern with MORE keys than the entry it selects: a null pattern value matches an absent key *)
+  Single("l", L(<<Mk2("$match", Mk2("a", I("1"), "zz", Null), "$value", I("5"))>>)),
+  Single("l", L(<<Single("$delete", Mk3("a", I("1"), "zz", Null, "yy", Null))>>)),
+  Single("l", L(<<Mk2("$match", Mk2("a", I("1"), "zz", Mk2("q", I("1"), "$invert", True)), "hit", True)>>)),
   Single("l", L(<<Mk2("$match", Single("b", S("x")), "$value", Mk2("nn", Single("deep", I("1")), "nl", EmptyList))>>)),
   Single("l", L(<<Mk2("$match", Single("a", I("1")), "a", I("1"))>>)),
   Single("l", L(<<Mk2("$match", Single("a", I("1")), "b", S("$delete"))>>)),
